@@ -25,3 +25,19 @@ pub broadcast proof fn axiom_pat_view_string(p: &String)
 #[verifier::external_body]
 pub broadcast proof fn axiom_lower_idempotent(s: Seq<char>)
     ensures #[trigger] lower(lower(s)) == lower(s) {}
+
+// ---- OsString / PathBuf built from a String and compared with == (std: From<&T: AsRef<OsStr>>, PartialEq) ----
+pub uninterp spec fn os_of<T: ?Sized>(s: &T) -> Seq<char>;
+pub uninterp spec fn path_of<T: ?Sized>(s: &T) -> Seq<Seq<char>>;
+#[verifier::external_body]
+pub broadcast proof fn axiom_os_of_string(s: &String) ensures #[trigger] os_of::<String>(s) == os_of_str(s@) {}
+#[verifier::external_body]
+pub broadcast proof fn axiom_path_of_string(s: &String) ensures #[trigger] path_of::<String>(s) == path_of_str(s@) {}
+pub assume_specification<'a, T: ?Sized + AsRef<std::ffi::OsStr>> [<std::ffi::OsString as From<&'a T>>::from] (s: &T) -> (r: std::ffi::OsString)
+    ensures os_view(r) == os_of::<T>(s);
+pub assume_specification [<std::ffi::OsString as PartialEq>::eq] (a: &std::ffi::OsString, b: &std::ffi::OsString) -> (r: bool)
+    ensures r == (os_view(*a) == os_view(*b));
+pub assume_specification<'a, T: ?Sized + AsRef<std::ffi::OsStr>> [<std::path::PathBuf as From<&'a T>>::from] (s: &T) -> (r: std::path::PathBuf)
+    ensures path_view(r) == path_of::<T>(s);
+pub assume_specification [<std::path::PathBuf as PartialEq>::eq] (a: &std::path::PathBuf, b: &std::path::PathBuf) -> (r: bool)
+    ensures r == (path_view(*a) == path_view(*b));
